@@ -22,6 +22,9 @@ def scenario(driver, variant):
         sc.d(b'/W/DEST')
     sc.opts = ['r']
     sc.extra = ['--fsync', '--block-size', '2048'] + (['--ownership'] if variant == 'owner' else [])
+    if variant == 'backup':              # overwrite with numbered backups: the rename that makes the backup is a step too
+        sc.d(b'/W/DEST').d(b'/W/DEST/S').f(b'/W/DEST/S/a').d(b'/W/DEST/S/sub').f(b'/W/DEST/S/sub/b', text=b'older').d(b'/W/DEST/S/emptyd')
+        sc.extra = ['--fsync', '--block-size', '2048', '--backup=numbered']
     if variant == 'noprogress':          # no progress display: errors must still reach the exit status
         sc.extra = ['--fsync', '--no-progress']
     sc.paths = [b'S', b'DEST']
@@ -61,7 +64,7 @@ def site_of(e, root, after_data):
 def correct(sc, o):
     """exit 0 => complete and correct destination (kinds, bytes, link text, modes, mtimes of files)"""
     after = treerun.decode(o.after)
-    tb = b'/W/DEST/S' if sc.variant in ('overwrite', 'into') else b'/W/DEST'
+    tb = b'/W/DEST/S' if sc.variant in ('overwrite', 'into', 'backup') else b'/W/DEST'
     for e in sc.entries:
         p = e['p']
         if not p.startswith(b'/W/S'):
@@ -87,7 +90,7 @@ def run(ctx):
     sites_hit = {}
     with core.Scratch('c04') as base:
         for driver in ('parfile', 'parblock'):
-            for variant in (('fresh', 'overwrite', 'into', 'noprogress') if ctx.quick else ('fresh', 'overwrite', 'into', 'owner', 'noprogress')):
+            for variant in (('fresh', 'overwrite', 'into', 'noprogress', 'backup') if ctx.quick else ('fresh', 'overwrite', 'into', 'owner', 'noprogress', 'backup')):
                 sc = scenario(driver, variant)
                 o0 = treerun.run(base, sc, trace=True)
                 if o0.res.cls != '0' or correct(sc, o0):
